@@ -11,7 +11,7 @@ from typing import Any, Dict, List, Optional, Tuple
 from ..elements import (COORDS, ElementInfo, as_poly, load_elements,
                         load_refdoms, RefdomInfo)
 from ..interp import Arr, Interp, Obj, PyFunc, Raised, Unsupported
-from ..model import AnalysisError, Model, src, walk_no_nested
+from ..model import staged, AnalysisError, Model, src, walk_no_nested
 from ..poly import Poly
 
 PID = "C03"
@@ -515,9 +515,9 @@ def run(model: Model, rep, tier: str) -> None:
              "decoding agrees with the DOF stacking")
     refdoms = load_refdoms(model)
     els = load_elements(model, refdoms)
-    _trace_rule(model, rep, els, refdoms)
-    _sorting_rule(model, rep, els)
-    _hdiv_rule(model, rep, els)
+    staged(lambda: _trace_rule(model, rep, els, refdoms),
+           lambda: _sorting_rule(model, rep, els),
+           lambda: _hdiv_rule(model, rep, els))
     rep.require_min("C03-R1", 30)
     rep.require_min("C03-R2", 2)
     rep.require_min("C03-R3", 7)
